@@ -240,6 +240,7 @@ class _Scanner(ast.NodeVisitor):
         self.scope = []
         self.writes = writes
         self.randoms = randoms
+        self.fresh_stack = []
 
     def _qual(self):
         return self.rel + ":" + ".".join(self.scope)
@@ -249,11 +250,30 @@ class _Scanner(ast.NodeVisitor):
 
     def visit_FunctionDef(self, node):
         self.scope.append(node.name)
+        # names bound in this function to a freshly built container: mutating them is local to the call
+        fresh = set()
+        params = {a.arg for a in node.args.args + node.args.kwonlyargs + node.args.posonlyargs}
+        for sub in ast.walk(node):
+            if isinstance(sub, (ast.Assign, ast.AnnAssign)):
+                val = sub.value
+                tgts = sub.targets if isinstance(sub, ast.Assign) else [sub.target]
+                is_fresh = isinstance(val, (ast.List, ast.Dict, ast.Set, ast.ListComp, ast.DictComp, ast.SetComp)) or (
+                    isinstance(val, ast.Call) and _name(val.func) in ("list", "dict", "set", "deque", "collections.deque")
+                )
+                for t in tgts:
+                    if isinstance(t, ast.Name):
+                        (fresh.add if is_fresh else fresh.discard)(t.id) if is_fresh or t.id not in fresh else None
+        self.fresh_stack.append(fresh - params)
         self.generic_visit(node)
+        self.fresh_stack.pop()
         self.scope.pop()
 
     visit_AsyncFunctionDef = visit_FunctionDef
-    visit_ClassDef = visit_FunctionDef
+
+    def visit_ClassDef(self, node):
+        self.scope.append(node.name)
+        self.generic_visit(node)
+        self.scope.pop()
 
     def _targets(self, tg):
         for sub in ast.walk(tg):
@@ -291,7 +311,10 @@ class _Scanner(ast.NodeVisitor):
         if nm.startswith("random."):
             self.randoms.append((self._qual(), nm))
         if nm.split(".")[-1] in MUTATORS and not self._in_init():
-            self.writes.append((self._qual(), "call " + nm))
+            target = nm.rsplit(".", 1)[0]
+            local_fresh = "." not in target and any(target in f for f in self.fresh_stack[-1:])
+            if not local_fresh:
+                self.writes.append((self._qual(), "call " + nm))
         if nm in ("setattr", "object.__setattr__"):
             self.writes.append((self._qual(), "call " + nm))
         self.generic_visit(node)
